@@ -848,19 +848,50 @@ func fmtDiffForms(r *core.Run) {
 		r.Fatal("anchor: genlsp.astFormatter.Format not found")
 		return
 	}
-	var lines []string
-	ast.Inspect(lfd.Body, func(nd ast.Node) bool {
-		if kv, ok := nd.(*ast.KeyValueExpr); ok && core.ExprStr(kv.Key) == "Line" {
-			lines = append(lines, core.ExprStr(kv.Value))
+	// Start.Line ← FromLine and End.Line ← ToLine of one FmtDiff value, wherever
+	// the conversion lives (Format itself or a helper it calls)
+	got := map[string]string{}
+	chars := map[string]string{}
+	ast.Inspect(core.TreeBody(lpk, lfd), func(nd ast.Node) bool {
+		kv, ok := nd.(*ast.KeyValueExpr)
+		if !ok {
+			return true
 		}
-		_ = lpk
+		which := core.ExprStr(kv.Key)
+		if which != "Start" && which != "End" {
+			return true
+		}
+		cl, ok := core.Unparen(kv.Value).(*ast.CompositeLit)
+		if !ok {
+			return true
+		}
+		for _, e := range cl.Elts {
+			ikv, ok := e.(*ast.KeyValueExpr)
+			if !ok {
+				continue
+			}
+			switch core.ExprStr(ikv.Key) {
+			case "Line":
+				v := core.Unparen(ikv.Value)
+				if c, isCall := v.(*ast.CallExpr); isCall && core.IsConversion(lpk.TypesInfo, c) && len(c.Args) == 1 {
+					v = core.Unparen(c.Args[0])
+				}
+				if sel, isSel := v.(*ast.SelectorExpr); isSel && strings.HasSuffix(core.TypeStr(lpk.TypesInfo.TypeOf(sel.X)), "parser.FmtDiff") {
+					got[which] = sel.Sel.Name
+				} else {
+					got[which] = core.ExprStr(ikv.Value)
+				}
+			case "Character":
+				chars[which] = core.ExprStr(ikv.Value)
+			}
+		}
 		return true
 	})
 	o := r.Add("R-CONST/fmtdiff", "genlsp.astFormatter.Format | line mapping", lfd.Pos(), "LSP range lines")
-	if len(lines) == 2 && lines[0] == "uint32(diff.FromLine)" && lines[1] == "uint32(diff.ToLine)" {
-		o.Auto("start line FromLine, end line ToLine")
+	if got["Start"] == "FromLine" && got["End"] == "ToLine" && chars["Start"] == "0" && chars["End"] == "0" {
+		o.Auto("start line FromLine, end line ToLine, character 0")
 	} else {
-		o.Fail("LSP lines are %v", lines)
+		o.Fail("LSP range is Start{Line: %s, Character: %s} End{Line: %s, Character: %s}, expected FromLine/0 and ToLine/0", got["Start"], chars["Start"], got["End"], chars["End"])
 	}
 	r.Floor("R-CONST/fmtdiff", 5, "two fragment forms, two gap forms, LSP mapping")
 }
